@@ -302,7 +302,11 @@ def synth_xml(version, variant=''):
     <request name="poke">
       <arg name="first_v%(v)d%(x)s" type="uint" enum="mode"/>
       <arg name="second_v%(v)d%(x)s" type="object" interface="zz_target_v%(v)d%(x)s" allow-null="true"/>
+      <arg name="third" type="uint" enum="zz_only_v%(v)d.kind"/>
     </request>
+    <enum name="kind">
+      <entry name="own_kind_must_not_be_used" value="1"/>
+    </enum>
     <enum name="mode">
       <entry name="m%(v)d%(x)s" value="1"/>
       <entry name="shifted%(v)d%(x)s" value="1 &lt;&lt; %(v)d"/>
@@ -310,6 +314,9 @@ def synth_xml(version, variant=''):
     </enum>
   </interface>
   <interface name="zz_only_v%(v)d" version="1">
+    <enum name="kind">
+      <entry name="theirs%(v)d" value="1"/>
+    </enum>
     <event name="ping"><arg name="p%(v)d" type="int"/></event>
   </interface>
 </protocol>
@@ -339,6 +346,9 @@ def eval_precedence(case):
         l1 = protocol.look_up_enum('zz_iface', 'poke', 0, 1)
         lsh = protocol.look_up_enum('zz_iface', 'poke', 0, 1 << hv)
         lhex = protocol.look_up_enum('zz_iface', 'poke', 0, int('0x%d0' % hv, 16))
+        third = protocol.look_up_enum('zz_iface', 'poke', 2, 1)
+        if third != ['theirs%d' % hv]:
+            V.append(Violation('protocol.qualified_enum', case, {'expected': ['theirs%d' % hv], 'observed': third}))
         ok = False
         for x in winners:
             sfx = '%d%s' % (hv, x)
